@@ -13,6 +13,7 @@ Part 2 (Nelder-Mead) and part 3 (Powell) are further below.
 import MysticVerif.Proofs.Strategy
 import MysticVerif.Proofs.RefFmin
 import MysticVerif.Proofs.Powell
+import MysticVerif.Proofs.Brent
 
 namespace MysticVerif.C08
 open MysticVerif.Strategy MysticVerif.Solver
@@ -477,5 +478,206 @@ example : (Powell.mysticPowell exCfg 10 [0] [[1]]).map (fun o => (o.st.x, o.st.i
 /-- and the F15 situation: started at the minimiser the reference stops after iteration 1, mystic after iteration 2 -/
 example : (Powell.refPowell exCfg 10 [3] [[1]]).map (fun o => o.st.iter) = some 1 := by decide
 example : (Powell.mysticPowell exCfg 10 [3] [[1]]).map (fun o => o.st.iter) = some 2 := by decide
+
+/-! ## The Brent line search (`bracket`, `brent`, `_linesearch_powell`)
+
+`Model/Brent.lean` transcribes the three routines over an abstract scalar type.  The first group of statements holds
+over ANY interpretation of `+ - * /`, `abs`, `<`, `<=`, `==` and of the literals (so also for `Float`, NaN included);
+the second group needs a linear order on the values (no NaN) and still leaves the arithmetic uninterpreted: they are
+statements about which comparisons the code makes, for every function, bracket, tolerance, `maxiter` and fuel. -/
+
+section brent
+open MysticVerif.Brent
+
+/-- **Every evaluation is logged once and counted; Brent's loop terminates within `maxiter` passes.**  Whenever
+`brent(func, brack, tol, full_output=1, maxiter)` returns: every log entry is `(alpha, func alpha)`; the log holds
+exactly the bracket's evaluations followed by Brent's own; the `funcalls` it REPORTS counts only its own (the
+bracket's count is overwritten by `funcalls = 1`, l.1413), equals `iter + 1`, and `iter <= maxiter`. -/
+theorem brent_evaluations_logged [Add R] [Sub R] [Mul R] [Div R] [Neg R] [LT R] [DecidableLT R] [LE R] [DecidableLE R]
+    [BEq R] (k : K R) (f : R → R) (brack : Brack R) (tol : R) (maxiter bmax fuel : Nat) (o : Out R)
+    (h : brent k f brack tol maxiter bmax fuel = .ok o) :
+    Faithful f o.log ∧ o.log.length = o.nbracket + o.funcalls ∧ o.funcalls = o.iter + 1 ∧ o.iter ≤ maxiter := by
+  obtain ⟨bk, hb, ho⟩ := brent_ok k f brack tol maxiter bmax fuel o h
+  obtain ⟨hf, hn⟩ := getBracketInfo_log k f brack bmax fuel bk hb
+  obtain ⟨l, h1, h2, h3, h4, h5, h6⟩ := optimize_log k f tol maxiter bk o ho
+  refine ⟨by rw [h1]; exact hf.append h2, ?_, h4, h5⟩
+  rw [h1, List.length_append, h6, hn, h3]
+
+/-- **`bracket` terminates within the fuel bound and counts its evaluations.**  With `maxiter + 2` units of fuel the
+model never runs out (pass `maxiter + 2` raises "Too many iterations"); a normal return has logged every evaluation
+once, reports exactly that many, and made at most two per pass. -/
+theorem bracket_terminates [Add R] [Sub R] [Mul R] [Div R] [Neg R] [LT R] [DecidableLT R] [LE R] [DecidableLE R] [BEq R]
+    (k : K R) (f : R → R) (xa xb : R) (maxiter fuel : Nat) (hf : maxiter + 2 ≤ fuel) :
+    (∀ lg, bracket k f xa xb maxiter fuel ≠ .error (.fuel, lg)) ∧
+    ∀ r, bracket k f xa xb maxiter fuel = .ok r →
+      Faithful f r.log ∧ r.funcalls = r.log.length ∧ 3 ≤ r.funcalls ∧ r.funcalls ≤ 3 + 2 * (maxiter + 1) :=
+  ⟨fun lg => bracket_fuel k f xa xb maxiter fuel lg hf, fun r h => bracket_log k f xa xb maxiter fuel r h⟩
+
+/-- **`bracket` goes downhill.**  Over a linear order, a normal return `(xa, xb, xc, fa, fb, fc)` consists of evaluated
+points with their values, `fb <= fa`, `fb <= fc`, and `fb` is not above the value at either START point.  `fb` is the
+least value evaluated, except after the exit `elif (fw > fb): xc = w; fc = fw; return`, which forgets the strictly
+lower point `(xc, fc)`: if anything evaluated is below `fb` then `fb < fc` strictly. -/
+theorem bracket_downhill [LinearOrder R] [Add R] [Sub R] [Mul R] [Div R] [Neg R] [BEq R]
+    (k : K R) (f : R → R) (xa xb : R) (maxiter fuel : Nat) (r : Bk R) (h : bracket k f xa xb maxiter fuel = .ok r) :
+    r.fb ≤ r.fa ∧ r.fb ≤ r.fc ∧ r.fb ≤ f xa ∧ r.fb ≤ f xb ∧
+    (r.xa, r.fa) ∈ r.log ∧ (r.xb, r.fb) ∈ r.log ∧ (r.xc, r.fc) ∈ r.log ∧ r.fb = f r.xb ∧
+    ((∃ e ∈ r.log, e.2 < r.fb) → r.fb < r.fc) := by
+  have hs := bracket_spec k f xa xb maxiter fuel r h
+  exact ⟨hs.ba, hs.bc, le_trans hs.start (min_le_left _ _), le_trans hs.start (min_le_right _ _), hs.memA, hs.memB,
+    hs.memC, hs.faith _ hs.memB, hs.least⟩
+
+/-- **Brent returns the best point it evaluated itself** (the full statement "the least of ALL evaluated values" is
+false: `brent_can_return_above_an_evaluated_point`).  Over a linear order, from ANY bracket: Brent's own evaluations
+are `l1 ++ [(xmin, fval)] ++ l2` (after the bracket's), nothing in `l1` is lower than `fval` and everything in `l2` is
+STRICTLY higher - `x` is replaced on `fu <= fx`, so the returned point is the LAST lowest one -, `fval = func xmin`,
+and `fval` is not above the value at the bracket's middle point (Brent's first evaluation). -/
+theorem brent_returns_last_lowest [LinearOrder R] [Add R] [Sub R] [Mul R] [Div R] [Neg R] [BEq R]
+    (k : K R) (f : R → R) (tol : R) (maxiter : Nat) (bk : Bk R) (o : Out R) (h : optimize k f tol maxiter bk = .ok o) :
+    (∃ l1 l2, o.log = bk.log ++ (l1 ++ (o.xmin, o.fval) :: l2) ∧ (∀ e ∈ l1, o.fval ≤ e.2) ∧ (∀ e ∈ l2, o.fval < e.2) ∧
+      o.funcalls = (l1 ++ (o.xmin, o.fval) :: l2).length) ∧ o.fval = f o.xmin ∧ o.fval ≤ f bk.xb := by
+  obtain ⟨⟨l1, l2, h1, h2, h3, _, h5⟩, hv, hle, _⟩ := optimize_spec k f tol maxiter bk o h
+  exact ⟨⟨l1, l2, h1, h2, h3, h5⟩, hv, hle⟩
+
+/-- **`LsMono`: a line search never returns a worse point than its start.**  Over a linear order, whenever
+`_linesearch_powell(func, p, xi)` returns (bracket did not raise), the returned value is the cost at the returned
+point, one of the evaluated points, and is not above the cost at `p + 0*xi` (nor at `p + 1*xi`).  This is the contract
+`Proofs/PowellS.lean` assumes of its line-search oracle. -/
+theorem linesearch_never_worse_than_start [LinearOrder R] [Add R] [Sub R] [Mul R] [Div R] [Neg R] [BEq R]
+    (k : K R) (func : Pt R → R) (p xi : Pt R) (tol : R) (maxiter bmax fuel : Nat) (o : Out R)
+    (h : lineSearch k func p xi tol maxiter bmax fuel = .ok o) :
+    o.fval = func (along p xi o.xmin) ∧ (o.xmin, o.fval) ∈ o.log ∧
+    o.fval ≤ func (along p xi k.zero) ∧ o.fval ≤ func (along p xi k.one) := by
+  obtain ⟨bk, hb, ho⟩ := brent_ok k _ .none tol maxiter bmax fuel o h
+  have hbs := bracket_spec k (fun a => func (along p xi a)) k.zero k.one bmax fuel bk hb
+  obtain ⟨⟨l1, l2, h1, _, _, _, _⟩, hv, hle, _⟩ := optimize_spec k _ tol maxiter bk o ho
+  have hfb : bk.fb = func (along p xi bk.xb) := hbs.faith _ hbs.memB
+  have h0 : o.fval ≤ bk.fb := by rw [hfb]; exact hle
+  refine ⟨hv, by rw [h1]; simp, le_trans h0 (le_trans hbs.start (min_le_left _ _)),
+    le_trans h0 (le_trans hbs.start (min_le_right _ _))⟩
+
+/-- the same for the oracle record handed to `Model/Powell.lean`, with `p + 0*xi = p` discharged by the two laws
+`0*a = 0`, `a + 0 = a` -/
+theorem lsOut_never_worse_than_start [LinearOrder R] [Add R] [Sub R] [Mul R] [Div R] [Neg R] [BEq R]
+    (k : K R) (func : Pt R → R) (p xi : Pt R) (tol : R) (maxiter bmax fuel : Nat) (bad : Pt R → Pt R → Powell.LsOut R R)
+    (o : Out R) (h : lineSearch k func p xi tol maxiter bmax fuel = .ok o)
+    (hmul : ∀ a : R, k.zero * a = k.zero) (hadd : ∀ a : R, a + k.zero = a) (hlen : p.length ≤ xi.length) :
+    (lsOut k func tol maxiter bmax fuel bad p xi).fret ≤ func p ∧
+    (lsOut k func tol maxiter bmax fuel bad p xi).fret = func (lsOut k func tol maxiter bmax fuel bad p xi).x ∧
+    (lsOut k func tol maxiter bmax fuel bad p xi).ncalls = o.nbracket + o.funcalls := by
+  have hm := linesearch_never_worse_than_start k func p xi tol maxiter bmax fuel o h
+  have hl := brent_evaluations_logged k _ .none tol maxiter bmax fuel o h
+  have hz := along_zero k.zero hmul hadd p xi hlen
+  unfold lsOut
+  rw [h]
+  simp only
+  rw [hz] at hm
+  exact ⟨hm.2.2.1, hm.1, hl.2.1⟩
+
+/-- **The record for `Model/PowellS.lean`.**  If the point test `eqv` is equality, the record cut from a returning
+line search lists exactly the evaluated points `p + alpha*xi` in call order (`pre ++ [y] ++ post`), `y` is the returned
+point `p + alpha_min*xi`, no earlier point equals it, and `xi` is the scaled direction. -/
+theorem lsRec_partition [Add R] [Sub R] [Mul R] [Div R] [Neg R] [LT R] [DecidableLT R] [LE R] [DecidableLE R] [BEq R]
+    (k : K R) (eqv : Pt R → Pt R → Bool) (heqv : ∀ a b, eqv a b = true ↔ a = b) (func : Pt R → R) (tol : R)
+    (maxiter bmax fuel : Nat) (bad : Pt R → Pt R → PowellS.LsRec R) (n : Nat) (p xi : Pt R) (o : Out R)
+    (h : lineSearch k func p xi tol maxiter bmax fuel = .ok o) (hmem : (o.xmin, o.fval) ∈ o.log) :
+    (lsRec k eqv func tol maxiter bmax fuel bad n p xi).pre ++ (lsRec k eqv func tol maxiter bmax fuel bad n p xi).y ::
+        (lsRec k eqv func tol maxiter bmax fuel bad n p xi).post = o.log.map (fun e => along p xi e.1) ∧
+    (lsRec k eqv func tol maxiter bmax fuel bad n p xi).y = along p xi o.xmin ∧
+    (lsRec k eqv func tol maxiter bmax fuel bad n p xi).xi = vscale o.xmin xi ∧
+    ∀ z ∈ (lsRec k eqv func tol maxiter bmax fuel bad n p xi).pre, z ≠ along p xi o.xmin := by
+  have hex : ∃ a ∈ o.log.map (fun e => along p xi e.1), eqv (vadd p (vscale o.xmin xi)) a = true :=
+    ⟨along p xi o.xmin, List.mem_map.mpr ⟨_, hmem, rfl⟩, (heqv _ _).mpr rfl⟩
+  obtain ⟨r, hr⟩ := splitFirst_isSome _ _ hex
+  obtain ⟨h1, h2, h3⟩ := splitFirst_some _ _ r hr
+  unfold lsRec
+  rw [h]
+  simp only [hr]
+  refine ⟨h1.symm, ((heqv _ _).mp h2).symm, by first | rfl | trivial, ?_⟩
+  intro z hz hzeq
+  have := h3 z hz
+  rw [hzeq] at this
+  have h' := (heqv (vadd p (vscale o.xmin xi)) (along p xi o.xmin)).mpr rfl
+  rw [h'] at this
+  cases this
+
+/-- **The closed system.**  With the modelled Brent search plugged in as the line-search oracle, `fmin_powell` still
+returns exactly what the reference returns (instance of `powell_refines_ref`, which holds for every oracle): the
+whole run is now a function of `func`, `x0`, the direction set, the tolerances and the limits alone. -/
+theorem powell_with_brent_refines_ref [LinearOrder R] [Add R] [Sub R] [Mul R] [Div R] [Neg R] [BEq R]
+    (k : K R) (c : Powell.Cfg R R) (tol : R) (imax bmax lsfuel : Nat) (bad : Pt R → Pt R → Powell.LsOut R R)
+    (hls : c.ls = lsOut k c.f tol imax bmax lsfuel bad) (fuel : Nat) (x0 : Pt R) (direc : List (Pt R))
+    (hstart : Powell.mStop c (Powell.mGen0 c x0 direc) = false)
+    (h15 : c.conv (c.f x0) (Powell.sweep c (Powell.init c x0 direc)).fval = true →
+      (c.maxfun ≤ (Powell.sweep c (Powell.init c x0 direc)).fcalls ∨ c.maxiter ≤ 1)) :
+    Powell.mysticPowell c fuel x0 direc = Powell.refPowell c fuel x0 direc ∧
+    c.ls = lsOut k c.f tol imax bmax lsfuel bad :=
+  ⟨powell_refines_ref c fuel x0 direc hstart h15, hls⟩
+
+/-! ### non-vacuity and the witnesses (integers; `gold = 3`, `cg = 1`, `abs = |.|`: the theorems hold for every `K`) -/
+
+/-- a Boolean test of a normal return / of a raised exception (so that `decide` evaluates the run in the kernel) -/
+def okSat {α : Type} (r : Res R α) (q : α → Bool) : Bool := match r with | .ok a => q a | .error _ => false
+def errSat {α : Type} (r : Res R α) (q : Err × Log R → Bool) : Bool := match r with | .ok _ => false | .error e => q e
+
+def kInt : K Int :=
+  { abs := fun a => if a < 0 then -a else a, zero := 0, one := 1, two := 2, half := 1, gold := 3, verysmall := 0,
+    growLimit := 110, mintol := 0, cg := 1 }
+
+/-- a valley with a bump at 3: `f 0 = 9, f 1 = 4, f 4 = 1`, everything else `100` -/
+def bumpF (a : Int) : Int := if a = 0 then 9 else if a = 1 then 4 else if a = 4 then 1 else 100
+
+/-- a plain valley `(a - 5)^2` -/
+def valleyF (a : Int) : Int := (a - 5) * (a - 5)
+
+/-- `bracket` and `brent` return on the valley (the hypotheses of the theorems above are satisfiable), the bracket is a
+genuine downhill triple and Brent's result is below both start values -/
+example : okSat (bracket kInt valleyF 0 1 1000 1002) (fun r =>
+    decide ((r.xa, r.xb, r.xc, r.fa, r.fb, r.fc, r.funcalls) = (4, 5, 8, 1, 0, 9, 5))) = true := by decide
+example : okSat (brent kInt valleyF .none 0 5 1000 1002) (fun o =>
+    decide (o.fval ≤ valleyF 0 ∧ o.fval ≤ valleyF 1 ∧ o.fval = valleyF o.xmin ∧ o.funcalls = o.iter + 1 ∧
+      o.log.length = o.nbracket + o.funcalls)) = true := by decide
+
+/-- **Witness: Brent can return a point ABOVE one it evaluated.**  On `bumpF` the bracket loop sees
+`f 4 = 1 < f 1 = 4`, tries the parabola's vertex `w = 3` between them, finds `f 3 = 100 > f 1` and returns the triple
+`(0, 1, 3)`, forgetting `(4, 1)`; Brent then stays at `x = 1`.  So "the returned point carries the least evaluated
+value" is FALSE in general; what holds is `brent_returns_last_lowest` + `bracket_downhill` (in particular `LsMono`). -/
+theorem brent_can_return_above_an_evaluated_point :
+    okSat (brent kInt bumpF .none 0 3 1000 1002) (fun o =>
+      decide (o.xmin = 1 ∧ o.fval = 4 ∧ ((4 : Int), (1 : Int)) ∈ o.log ∧ o.fval ≤ bumpF 0)) = true := by decide
+
+/-- **Witness: `bracket` can fail to return** (then `_linesearch_powell` and the whole `fmin_powell` raise): on the
+unbounded `-a` with `maxiter = 2` the fourth pass raises "Too many iterations" after 6 evaluations. -/
+theorem bracket_too_many_witness :
+    errSat (bracket kInt (fun a => -a) 0 1 2 4) (fun e => decide (e.1 = Err.tooMany ∧ e.2.length = 6)) = true := by
+  decide
+
+/-! `LsMono` NEEDS the linear order: with a NaN (here `none`: every comparison with it is false) everywhere but at
+`alpha = 0` the bracket loop does not start (`fc < fb` is false), Brent starts at `x = 1`, and since `fu > fx` is false
+for a NaN `fu` every new point REPLACES the best one: a NaN is returned - not `<=` the value 5 at the start. -/
+
+instance : Add (Option Int) := ⟨fun a b => a.bind fun x => b.map (x + ·)⟩
+instance : Sub (Option Int) := ⟨fun a b => a.bind fun x => b.map (x - ·)⟩
+instance : Mul (Option Int) := ⟨fun a b => a.bind fun x => b.map (x * ·)⟩
+instance : Div (Option Int) := ⟨fun a b => a.bind fun x => b.map (x / ·)⟩
+instance : Neg (Option Int) := ⟨fun a => a.map (- ·)⟩
+/-- IEEE-style order on `Option Int` with `none` as NaN (local to the witness below) -/
+def nanLt (a b : Option Int) : Prop := match a, b with | some x, some y => x < y | _, _ => False
+def nanLe (a b : Option Int) : Prop := match a, b with | some x, some y => x ≤ y | _, _ => False
+instance nanLT : LT (Option Int) := ⟨nanLt⟩
+instance nanLE : LE (Option Int) := ⟨nanLe⟩
+instance : DecidableLT (Option Int) := fun a b => by
+  show Decidable (nanLt a b); unfold nanLt; cases a <;> cases b <;> infer_instance
+instance : DecidableLE (Option Int) := fun a b => by
+  show Decidable (nanLe a b); unfold nanLe; cases a <;> cases b <;> infer_instance
+
+def kNan : K (Option Int) :=
+  { abs := fun a => a.map fun x => if x < 0 then -x else x, zero := some 0, one := some 1, two := some 2, half := some 1,
+    gold := some 3, verysmall := some 0, growLimit := some 110, mintol := some 0, cg := some 1 }
+
+theorem linesearch_mono_fails_with_nan :
+    okSat (brent kNan (fun a => if a = some 0 then some 5 else none) .none (some 0) 3 1000 1002) (fun o =>
+      decide (o.fval = none ∧ ¬ (o.fval ≤ (some 5 : Option Int)))) = true := by decide
+
+end brent
 
 end MysticVerif.C08
